@@ -1,3 +1,31 @@
+//! mc-kernels: bounded-exhaustive checks of the numeric kernels of rten
+//! (rten-simd, rten-vecmath, rten-gemm and the quantized / block-quantized
+//! matmul operators). Serves C16, C17, C18, C19, C37.
+
+mod c16;
+mod c17;
+mod c18;
+mod c18_common;
+mod c18_prims;
+mod c18_tails;
+mod c19;
+mod c37;
+mod util;
+
 fn main() {
-    vp_core::machinery_error("engine not built yet");
+    if let Some(w) = vp_core::isolate::worker_name() {
+        match w.as_str() {
+            "c18-tails" => c18::worker_entry(),
+            _ => vp_core::machinery_error("unknown worker"),
+        }
+    }
+    let prop = std::env::args().nth(1).unwrap_or_default();
+    match prop.as_str() {
+        "C16" => c16::run(vp_core::Ctx::from_env("C16")),
+        "C17" => c17::run(vp_core::Ctx::from_env("C17")),
+        "C18" => c18::run(vp_core::Ctx::from_env("C18")),
+        "C19" => c19::run(vp_core::Ctx::from_env("C19")),
+        "C37" => c37::run(vp_core::Ctx::from_env("C37")),
+        _ => vp_core::machinery_error("unknown property (mc-kernels serves C16 C17 C18 C19 C37)"),
+    }
 }
